@@ -13,6 +13,21 @@ for _s in TERMINAL:
     RANK[_s] = 3
 
 
+def kids(n):
+    """(kind, child, in_catch_or_timeout) for every model node declared directly under n."""
+    for key, k2 in (("steps", "step"), ("branches", "branch"), ("acts", "act"), ("setup", "act")):
+        for s in n.get(key, []) or []:
+            yield k2, s, False
+    prm = n.get("params")
+    if isinstance(prm, dict):
+        for a in prm.get("acts", []) or []:
+            if isinstance(a, dict):
+                yield "act", a, False
+    for c in (n.get("catches", []) or []) + (n.get("timeout", []) or []):
+        for s in c.get("steps", []) or []:
+            yield "step", s, True
+
+
 class Cfg:
     def __init__(self, **kw):
         self.policy = "fifo"
@@ -41,8 +56,19 @@ class Run:
         self.terminal_reported = {}  # tid -> state name at first task event in a terminal state
         self.catch_revived = set()
 
+    def history_tag(self):
+        """Histories containing an accepted back / cancel / push are tagged: the engine's handling of those
+        actions has recorded defects (C03) whose consequences must not mask violations of plain histories."""
+        tags = []
+        for k in ("Back", "Cancel", "Push"):
+            if any(e.get("action") == k and e.get("accepted") for e in self.log):
+                tags.append("after-" + k.lower())
+        return ("+" + "+".join(tags)) if tags else ""
+
     def viol(self, role, desc, detail=None):
         I = self.I
+        if self.prop in ("C02", "C05", "C08", "C06"):
+            role = role + self.history_tag()
         m = I.model()
         model = {}
         if m is not None:
@@ -106,23 +132,10 @@ class Run:
         def walk(n, kind):
             if n.get("id") == nid:
                 return kind, n
-            for s in n.get("steps", []):
-                r = walk(s, "step")
+            for k2, c, _ in kids(n):
+                r = walk(c, k2)
                 if r:
                     return r
-            for b in n.get("branches", []):
-                r = walk(b, "branch")
-                if r:
-                    return r
-            for a in n.get("acts", []):
-                r = walk(a, "act")
-                if r:
-                    return r
-            for c in n.get("catches", []) + n.get("timeout", []):
-                for s in c.get("steps", []):
-                    r = walk(s, "step")
-                    if r:
-                        return r
             return None
 
         return walk(self.model, "workflow")
@@ -193,6 +206,10 @@ class Run:
             phase = 0
             self.save(snaps, phase)
         W = self.W
+        if getattr(self.cfg, "error_script", False) and phase == 0:
+            if self.error_script():
+                W.drain()
+                self.at_quiescence("error")
         for i in range(phase, self.cfg.k):
             if not self.scripted_action(i):
                 break
@@ -223,6 +240,9 @@ class Run:
             cands = [t for t in ts if t["kind"] == "Act"]
         else:
             cands = list(ts)
+        if getattr(self.cfg, "skip_running_acts", False):
+            # closing a running composite act over its open children is recorded under C03; its consequences are not re-explored here
+            cands = [t for t in cands if not (t["kind"] == "Act" and t["state"] == "Running")]
         if not cands:
             return False
         d = I.path.choose(len(cands), "target")
@@ -264,7 +284,7 @@ class Run:
 
     def answer_all(self):
         W = self.W
-        bound = len(self.all_act_nodes()) + 4
+        bound = 2 * len(self.all_act_nodes()) + 6
         n = 0
         while True:
             irqs = self.open_irqs()
@@ -293,16 +313,10 @@ class Run:
         out = []
 
         def walk(n):
-            for s in n.get("steps", []):
-                walk(s)
-            for b in n.get("branches", []):
-                walk(b)
-            for a in n.get("acts", []):
-                out.append(a)
-                walk(a)
-            for c in n.get("catches", []) + n.get("timeout", []):
-                for s in c.get("steps", []):
-                    walk(s)
+            for k2, c, _ in kids(n):
+                if k2 == "act":
+                    out.append(c)
+                walk(c)
 
         walk(self.model)
         return out
@@ -473,38 +487,13 @@ class Run:
         def walk(n, inside):
             if n.get("id") == nid:
                 return inside
-            for key in ("steps", "branches", "acts"):
-                for s in n.get(key, []):
-                    r = walk(s, inside)
-                    if r is not None:
-                        return r
-            for c in n.get("catches", []) + n.get("timeout", []):
-                for s in c.get("steps", []):
-                    r = walk(s, True)
-                    if r is not None:
-                        return r
+            for k2, c, ic in kids(n):
+                r = walk(c, inside or ic)
+                if r is not None:
+                    return r
             return None
 
         return bool(walk(self.model, False))
-
-    def descendants(self, t, ts, by_tid):
-        out = []
-        for x in ts:
-            if x["tid"] == t["tid"]:
-                continue
-            p = x["prev"]
-            seen = 0
-            while p is not None and seen < 100:
-                seen += 1
-                if p == t["tid"]:
-                    if x["level"] > t["level"]:
-                        out.append(x)
-                    break
-                pt = by_tid.get(p)
-                if pt is None or pt["level"] <= t["level"]:
-                    break
-                p = pt["prev"]
-        return out
 
     # ================================================================== C08 message stream
     def q_c08(self, where):
@@ -590,6 +579,112 @@ class Run:
                 return pt
             p = pt["prev"]
         return None
+
+    # ================================================================== C06 errors and catches
+    def node_chain(self, nid):
+        """[(kind, node)] from the node itself up to the workflow."""
+        def walk(n, kind, path):
+            here = path + [(kind, n)]
+            if n.get("id") == nid:
+                return here
+            for k2, c, _ in kids(n):
+                r = walk(c, k2, here)
+                if r:
+                    return r
+            return None
+
+        r = walk(self.model, "workflow", [])
+        return list(reversed(r)) if r else None
+
+    def error_script(self):
+        """One client error with a code chosen from the pool on one of the open interrupts."""
+        I = self.I
+        W = self.W
+        irqs = self.open_irqs()
+        if not irqs:
+            return False
+        t = irqs[I.path.choose(len(irqs), "err-target")]
+        code = ["e1", "e2"][I.path.choose(2, "err-code")]
+        r = W.action(self.pid, t["tid"], "Error", {"ecode": code, "message": "boom"})
+        acc = None if r is None else r.d == 0
+        self.err_case = dict(nid=t["nid"], code=code, accepted=acc)
+        self.log.append(dict(target=t["nid"], target_state=t["state"], target_kind="Act", action="Error", accepted=acc,
+                             options={"ecode": code, "message": "boom"}, occurrence=0, dyn_index=None))
+        return True
+
+    def e_c06(self):
+        ec = getattr(self, "err_case", None)
+        if not ec or not ec["accepted"]:
+            return
+        self.res.witnesses += 1
+        W = self.W
+        ts = self.tasks()
+        chain = self.node_chain(ec["nid"])
+        code = ec["code"]
+        catcher = None
+        match = None
+        for i, (kind, n) in enumerate(chain):
+            for c in n.get("catches", []) or []:
+                if c.get("on") is None or c.get("on") == code:
+                    catcher, match = i, c
+                    break
+            if catcher is not None:
+                break
+        inst = lambda nid: [t for t in ts if t["nid"] == nid]
+        errs = [e for e in W.events if e[0] == "error" and e[1]["pid"] == self.pid]
+        comps = [e for e in W.events if e[0] == "complete" and e[1]["pid"] == self.pid]
+        shape = "catcher=%s" % ("none" if catcher is None else chain[catcher][0] + ("+%d" % catcher))
+        if catcher is None:
+            for kind, n in chain:
+                for t in inst(n["id"])[-1:]:
+                    if t["state"] != "Error":
+                        self.viol("uncaught-not-error:%s=%s" % (kind, t["state"]), "uncaught error %s: %s %s is %s, expected error" % (code, kind, n["id"], t["state"]))
+                    elif (t["err"] or {}).get("ecode") != code:
+                        self.viol("uncaught-wrong-code:%s" % kind, "%s %s carries %r, expected code %s" % (kind, n["id"], t["err"], code))
+            if len(errs) != 1 or comps:
+                self.viol("uncaught-events:error=%d,complete=%d" % (len(errs), len(comps)), "uncaught error must deliver exactly one error event")
+            elif (errs[0][1].get("inputs") or {}).get("ecode") != code:
+                self.viol("error-event-wrong-code", "error event carries %r" % (errs[0][1].get("inputs"),))
+            return
+        # caught
+        for kind, n in chain[:catcher]:
+            for t in inst(n["id"])[-1:]:
+                if t["state"] != "Error":
+                    self.viol("below-catcher-not-error:%s=%s" % (kind, t["state"]), "%s %s below the catching task is %s" % (kind, n["id"], t["state"]))
+        ckind, cn = chain[catcher]
+        for t in inst(cn["id"])[-1:]:
+            if t["state"] != "Completed":
+                self.viol("catcher-not-completed:%s=%s" % (ckind, t["state"]), "catching %s %s ended %s" % (ckind, cn["id"], t["state"]))
+        for c in cn.get("catches", []) or []:
+            for sidx, snode in enumerate(c.get("steps", []) or []):
+                n_inst = len(inst(snode["id"]))
+                if c is match:
+                    if n_inst != 1:
+                        self.viol("catch-steps-ran=%d" % n_inst, "matching catch step %s ran %d times" % (snode["id"], n_inst))
+                    elif inst(snode["id"])[0]["state"] != "Completed":
+                        self.viol("catch-step-state=%s" % inst(snode["id"])[0]["state"], "catch step %s is %s" % (snode["id"], inst(snode["id"])[0]["state"]))
+                elif n_inst != 0:
+                    self.viol("other-catch-ran", "steps of a non-selected catch ran (%s)" % snode["id"])
+        for kind, n in chain[:catcher]:
+            for c in n.get("catches", []) or []:
+                for snode in c.get("steps", []) or []:
+                    if inst(snode["id"]):
+                        self.viol("non-matching-catch-ran", "steps of a non-matching catch ran (%s)" % snode["id"])
+        if errs:
+            self.viol("caught-but-error-event", "the error was caught but an error event was delivered")
+        if len(comps) != 1 or comps[0][1]["state"] != "Completed":
+            self.viol("caught-flow-not-completed:%s" % (comps[0][1]["state"] if comps else "none"), "after the catch the flow did not run to completion")
+        # successors of the catcher at its own level ran
+        if catcher + 1 < len(chain):
+            pk, pn = chain[catcher + 1]
+            sibs = pn.get("acts" if ckind == "act" else "steps", []) or []
+            ids = [x["id"] for x in sibs]
+            if cn["id"] in ids:
+                for nxt in sibs[ids.index(cn["id"]) + 1 :]:
+                    if nxt.get("if"):
+                        continue
+                    if not inst(nxt["id"]) or inst(nxt["id"])[-1]["state"] != "Completed":
+                        self.viol("successor-did-not-run", "successor %s of the catching task did not complete" % nxt["id"])
 
     # ================================================================== C05 admission
     def a_c05(self, t, kind, accepted, before, nmsg, ntrace):
@@ -740,22 +835,18 @@ class ReplayRun(Run):
         self.res = R()
 
     def viol(self, role, desc, detail=None):
+        if self.prop in ("C02", "C05", "C08", "C06"):
+            role = role + self.history_tag()
         self.found.append((role, desc))
 
     def level_of(self, nid):
         def walk(n, depth):
             if n.get("id") == nid:
                 return depth
-            for key in ("steps", "branches", "acts"):
-                for s in n.get(key, []):
-                    r = walk(s, depth + 1)
-                    if r is not None:
-                        return r
-            for c in n.get("catches", []) + n.get("timeout", []):
-                for s in c.get("steps", []):
-                    r = walk(s, depth + 1)
-                    if r is not None:
-                        return r
+            for k2, c, _ in kids(n):
+                r = walk(c, depth + 1)
+                if r is not None:
+                    return r
             return None
 
         return walk(self.model, 0)
